@@ -219,6 +219,13 @@ def check(run, project):
                             d = [x for x in walk_no_nested(fn) if isinstance(x, ast.Assign) and isinstance(x.targets[0], ast.Name)
                                  and x.targets[0].id == pv.id]
                             path_ok = len(d) == 1 and "PathNode('commandCode')" in norm(d[0].value) and "root_path" in norm(d[0].value)
+            extra = [norm(c) for t, in_body in tests if in_body for c in conjuncts(t)
+                     if not (isinstance(c, ast.Compare) and norm(c.left) == f"{roles.event_var}.path")
+                     and norm(c) != f"isinstance({roles.event_var}, MarshalEvent)"]
+            run.ob("E2", not extra, f"command code capture at L{a.lineno} depends only on the event's path",
+                   f"the capture is additionally guarded by {extra}: in a stream the running command code is not updated for every "
+                   "command (the errors then carry the code of an earlier command)", module=mod, node=a, func=fn.name,
+                   construct=f"{cc_defs} capture guard")
             ok = norm(a.value) == f"{roles.event_var}.value" and path_ok
             run.ob("E2", ok, f"command code taken from the <root>.commandCode event at L{a.lineno}",
                    f"the running command code is assigned from `{norm(a.value)}` not guarded by path == <root>.commandCode",
